@@ -1,6 +1,8 @@
 """C07 - the smodels reader accepts exactly well-formed input and never alters a number.
 
-Case: N opts len bytes...   (N = BUF_SIZE variant, opts bit0 = claspExt, bit3 = filter; bits 1,2 (cEdge/cHeuristic) are C08's)
+Case: N opts len bytes...   (N = BUF_SIZE variant, opts bit0 = claspExt, bit3 = filter; bits 1,2 (cEdge/cHeuristic) are C08's;
+                             bit4 = caller: 0 readSmodels/readProgram = parse(Complete), 1 the step-wise API accept(); parse(Incremental);
+                             while (more()) parse(Incremental); - same observation for a correct reader, the model ignores the bit)
 Observation: encoded calls in delivery order, then  status line nerr   (see harness/h_c07.cpp)
 
 The oracle is an independent reference reader written from the format definition (lparse manual + clasp
@@ -9,6 +11,7 @@ checks, computes the denoted calls, and judges the implementation's observation 
 """
 import random
 from props import calls as K
+from props import reuse as RU
 
 PID = 'C07'
 HARNESS = 'h_c07'
@@ -27,12 +30,10 @@ def variant_of(c):
 
 
 def primed(c):
-    """harness/reuse.h: every other case (FNV-1a over the case's integers, bit 17) is read by a reader OBJECT that has read an accepted
-    incremental primer text before (reader reuse; invisible for a correct reader, so neither the model nor the oracle depends on it)"""
-    h = 1469598103934665603
-    for x in c:
-        h = ((h ^ (x & 0xFFFFFFFFFFFFFFFF)) * 1099511628211) & 0xFFFFFFFFFFFFFFFF
-    return bool((h >> 17) & 1)
+    """harness/reuse.h: every other case (FNV-1a over the case's integers, bit 17) is read by a reader OBJECT that has read - or refused - a
+    primer text before, chosen by further hash bits (props/reuse.py; reader reuse is invisible for a correct reader, so neither the model nor
+    the oracle depends on it)"""
+    return RU.primed(c)
 
 
 def decode(c):
@@ -47,10 +48,9 @@ def mk(n, ob, data):
 
 def describe(c):
     n, ob, data = decode(c)
-    rd = 'fresh'
-    if primed(c):
-        rd = 'reused(after reading %r)' % ('90 0\n0\n0\nB+\n0\nB-\n0\n1\n' if ob & 1 else '0\n0\nB+\n0\nB-\n0\n1\n')
-    return 'N=%d claspExt=%d filter=%d reader=%s text=%r' % (n, ob & 1, (ob >> 3) & 1, rd, bytes(x & 255 for x in data).decode('latin-1'))
+    rd = RU.reader(c, 'smodels', bool(ob & 1))
+    caller = 'step-wise(accept; parse(Incremental); while more(): parse(Incremental))' if ob & 16 else 'readSmodels(parse(Complete))'
+    return 'N=%d claspExt=%d filter=%d caller=%s reader=%s text=%r' % (n, ob & 1, (ob >> 3) & 1, caller, rd, bytes(x & 255 for x in data).decode('latin-1'))
 
 
 # ---------------------------------------------------------------------------------------------------
@@ -330,6 +330,9 @@ def oracle(c, obs):
         else:
             if got[:len(want)] != want[:len(got)]:
                 sig.append('delivered-before-error-differs-from-denoted')
+            elif rej.reason == 'extra:input-after-program' and len(got) > len(want):
+                # the program is complete and NOT incremental: the reader has to refuse the extra input before it reads any of it
+                sig.append('delivered-a-further-step-although-the-text-has-invalid-extra-input')
             if not (rej.lo <= line <= rej.hi):
                 sig.append('error-line-differs')
     return sig
@@ -549,8 +552,9 @@ def set_num(items, p, v):
     return items
 
 
-def r_items(rnd, ext):
-    inc = ext and rnd.random() < 0.35
+def r_items(rnd, ext, inc=None):
+    if inc is None:
+        inc = ext and rnd.random() < 0.35
     steps = rnd.choice([1, 2, 3]) if inc else 1
     items = []
     for k in range(steps):
@@ -589,7 +593,15 @@ FIXED = [
     (b'1 1 0 0\n0\n0\nB+\n0\nB-\n0\n1\n 5', 0, 'extra'), (b'1 1 0 0\n0\n0\nB+\n0\nB-\n0\n4294967296\n', 0, 'models'),
     (b'1 1 0 0\n0\n0\nB+ \n0\nB-\n0\n1\n', 0, 'kw'), (b'1 1 0 0\n0\n0\nB-\n0\nB+\n0\n1\n', 0, 'kw'), (b'1 1 0 0\n0\n2 a', 0, 'trunc'),
     (b'1 1 0 0 0 0B+\r\n0B-\r0E 0 1', 0, 'tight'),
+    # input after the number of models: a further well-formed step / garbage, behind a non-incremental and behind an incremental program
+    (b'1 1 0 0\n0\n0\nB+\n0\nB-\n0\n1\n1 2 0 0\n0\n2 b\n0\nB+\n0\nB-\n0\n1\n', 0, 'extra'),
+    (b'1 1 0 0\n0\n0\nB+\n0\nB-\n0\n1\n0\n0\nB+\n0\nB-\n0\n1\n', 1, 'extra'), (b'1 1 0 0\n0\n0\nB+\n0\nB-\n0\n1\nx', 0, 'extra'),
+    (b'1 1 0 0\n0\n0\nB+\n0\nB-\n0\n1\n0', 1, 'extra'), (b'0\n0\nB+\n0\nB-\n0\n1 \n\t\r\n', 0, 'extra'), (b'0\n0\nB+\n0\nB-\n0\n1\n90 0\n0\n0\nB+\n0\nB-\n0\n1\n', 1, 'extra'),
+    (b'90 0\n0\n0\nB+\n0\nB-\n0\n1\n1 1 0 0\n0\n0\nB+\n0\nB-\n0\n1\nx', 1, 'extra'), (b'90 0\n0\n0\nB+\n0\nB-\n0\n1\n0\n0\nB+\n0\nB-\n0\n1\n', 1, 'extra'),
+    (b'91 1 0\n0\n0\nB+\n0\nB-\n0\n1\n1 1 0 0\n0\n0\nB+\n0\nB-\n0\n1\n', 1, 'extra'),
 ]
+EXTRA_GARBAGE = [b'x', b'0', b'1', b'9', b'5 ', b'B+', b'B-\n', b'E', b'-', b'+', b'\x01', b'\xff', b'0\n', b'0\n0\n', b'0\n0\nB+\n0\nB-\n0\n',
+                 b'1 1 0 0', b'90 0\n', b'a b c', b'4294967296', b'-1\n']
 
 
 def gen(seed, tier):
@@ -600,16 +612,42 @@ def gen(seed, tier):
     def add(data, ob, kind, n=None):
         if 0 in data:
             data = [b for b in data if b != 0]
-        out.append((mk(n or rnd.choice(SIZES), ob, data), {'kind': kind}))
+        out.append((mk(n or rnd.choice(SIZES), ob, data), {'kind': kind + ('-stepwise' if ob & 16 else '')}))
     for t, ob, kind in FIXED:
         for n in SIZES:
             add(list(t), ob, 'fixed-' + kind, n)
+            add(list(t), ob | 16, 'fixed-' + kind, n)
             if kind.startswith('fix-') or kind == 'ext':
                 add(list(t.replace(b'\n', b'\r\n')), ob | (8 if n == 16 else 0), 'fixed-' + kind + '-crlf', n)
+            if kind == 'extra':
+                for o2 in (ob ^ 1, ob | 8):
+                    add(list(t), o2, 'fixed-' + kind, n)
+                    add(list(t), o2 | 16, 'fixed-' + kind, n)
     while len(out) < total:
         ext = rnd.random() < 0.5
-        ob = (1 if ext else 0) | (8 if rnd.random() < 0.3 else 0)
+        # bit 4: the caller's step-wise loop instead of parse(Complete), see harness/h_c07.cpp
+        ob = (1 if ext else 0) | (8 if rnd.random() < 0.3 else 0) | (16 if rnd.random() < 0.45 else 0)
         gen_ext = ext if rnd.random() < 0.85 else not ext   # sometimes extension rules without the option
+        if rnd.random() < 0.14:
+            # input behind the number of models: a further well-formed step / garbage / white space, behind a non-incremental program
+            # (first byte not '9': "invalid extra input") and behind an incremental one (a further step is read)
+            inc = gen_ext and rnd.random() < 0.4
+            style = rnd.choice(['lf', 'lf', 'crlf', 'wild', 'general'])
+            d = render(r_items(rnd, gen_ext, inc), rnd, style)
+            k = rnd.random()
+            if k < 0.45:
+                for _ in range(rnd.choice([1, 1, 2])):
+                    if d and d[-1] not in (10, 13, 32, 9):
+                        d = d + rnd.choice([[10], [32], [13, 10]])
+                    d = d + render(r_step(rnd, gen_ext), rnd, style)
+                add(d, ob, 'extra-step-' + ('inc' if inc else 'noninc'))
+            elif k < 0.9:
+                if rnd.random() < 0.7 or (d and d[-1] not in (10, 13, 32, 9)):
+                    d = d + rnd.choice([[10], [32], [13, 10], [9], [10, 10, 32]])
+                add(d + list(rnd.choice(EXTRA_GARBAGE)), ob, 'extra-garbage-' + ('inc' if inc else 'noninc'))
+            else:
+                add(d + [rnd.choice([10, 32, 9, 13, 11, 12]) for _ in range(rnd.randint(1, 40))], ob, 'extra-whitespace')
+            continue
         items = r_items(rnd, gen_ext)
         style = rnd.choice(['lf', 'lf', 'crlf', 'wild', 'general'])
         r = rnd.random()
@@ -711,10 +749,15 @@ def mutate(case, rnd):
     return res
 
 
-RULE = ('cases = (buffer size N in {4096,16,32}, options claspExt x filter, NUL-free text); texts are rendered from random well-formed '
-        '(optionally clasp-extended, optionally multi-step) smodels programs in LF / CRLF / wild-whitespace layout and then left valid or '
+RULE = ('cases = (buffer size N in {4096,16,32}, options claspExt x filter, caller = readSmodels (parse(Complete)) or the step-wise API '
+        '(accept; parse(Incremental); while more(): parse(Incremental)), NUL-free text); texts are rendered from random well-formed '
+        '(optionally clasp-extended, optionally multi-step) smodels programs in LF / CRLF / wild-whitespace / general layout and then left valid or '
         'given one fault (a numeric position set to 2^31, 2^32-1, 2^32, 2^63, 2^64+k, ...; neg > len; dropped/duplicated/swapped item; '
-        'truncation; byte edits; token soup); non-trivial = more than init/begin/end delivered or the text was rejected; distinct = distinct case tuples')
+        'truncation; byte edits; token soup), or followed by input behind the number-of-models field (further well-formed steps, garbage tokens, white '
+        'space; behind non-incremental and incremental programs, with and without claspExt); every other case (hash of the case) is read by a reader '
+        'OBJECT that before read or REFUSED one of 9 (13 with claspExt) primer texts (harness/reuse.h: accepted plain / incremental, with symbol '
+        'tables; refused inside the rules, inside / after the symbol table, inside the compute statement, in the trailer, in a second step, as extra input); '
+        'non-trivial = more than init/begin/end delivered or the text was rejected; distinct = distinct case tuples')
 TRUSTED_BASE = ['coq/C09/Spec.v abstract stream (refinement of BufferedStream is C09\'s obligation)',
                 'RuleBuilder modelled abstractly (collects head/body lists and delivers them unchanged)',
                 'props/C07.py reference reader (oracle on the implementation)']
